@@ -312,6 +312,8 @@ pub struct RunCtx {
     pub attempts:   Mutex<Vec<(u8, usize, bool)>>,
     /// panicked objects whose last owner was dropped by an unwinding thread in the closing phase
     pub dropped_unwinding: AtomicU32,
+    /// output streams handed over by the thread that created the pipe (dropped by a thread of a later phase)
+    pub stream_stash: Mutex<std::collections::HashMap<usize, desync::PipeStream<u64>>>,
     pub stash:      Mutex<std::collections::HashMap<OpId, Held>>,
     pub waiters:    Mutex<Vec<Thread>>,
     pub stashed_wakers: Mutex<Vec<Waker>>,
@@ -894,6 +896,7 @@ pub fn run_thread(ctx: &Arc<RunCtx>, acts: Vec<TAct>, mortal: Option<Arc<Obj>>) 
             }
             TAct::PipeCreate(p) => crate::pipes::create(ctx, &mut tls, p),
             TAct::Consume(p, n) => crate::pipes::consume(ctx, &mut tls, p, n),
+            TAct::StashStream(p) => { if let Some(s) = tls.streams.remove(&p) { ctx.stream_stash.lock().unwrap().insert(p, s); } }
             TAct::DropStream(p) => { crate::pipes::drop_stream(ctx, &mut tls, p); ctx.note_for_firer(); }
             TAct::Push(p) => crate::pipes::push_item(ctx, p),
             TAct::Attempt(kind, obj) => attempt(ctx, kind, obj),
@@ -1185,7 +1188,7 @@ pub fn build(prog: Program, native: bool) -> Handles {
         resumers: (0..n).map(|_| Mutex::new(None)).collect(),
         resume_stamp: (0..n).map(|_| AtomicU64::new(0)).collect(),
         wake_classes: (0..9 * 6).map(|_| AtomicU32::new(0)).collect(),
-        native, expected_panic_seen: AtomicU32::new(0), attempts: Mutex::new(vec![]), dropped_unwinding: AtomicU32::new(0), stash: Mutex::new(Default::default()), waiters: Mutex::new(vec![]), stashed_wakers: Mutex::new(vec![]), has_waiters: AtomicBool::new(prog_has_waits(&prog)),
+        native, expected_panic_seen: AtomicU32::new(0), attempts: Mutex::new(vec![]), dropped_unwinding: AtomicU32::new(0), stream_stash: Mutex::new(Default::default()), stash: Mutex::new(Default::default()), waiters: Mutex::new(vec![]), stashed_wakers: Mutex::new(vec![]), has_waiters: AtomicBool::new(prog_has_waits(&prog)),
         prog,
     });
     Handles { ctx, objects }
